@@ -890,6 +890,9 @@ class Exec:
             if which == "take":
                 st.store.write(a0[1], none)
                 return old
+            if which == "get_or_insert":
+                st.store.write(a0[1], self.option_cases(old, lambda v: some(v), lambda: some(args[1])))
+                return ("ref", a0[1] + ("@Some", "0"), None)
             return None
         x = args[0]
         if which == "unwrap_or":
